@@ -138,7 +138,7 @@ pub fn mutate(rng: &mut Rng, base: &str) -> String {
             let mut b: Vec<char> = fields[0].chars().collect();
             if !b.is_empty() {
                 let i = rng.below(b.len() as u64) as usize;
-                b[i] = *rng.pick(&['x', 'H', '?', 'é', '♞', '\t', '.', '9', '0']);
+                b[i] = if rng.chance(1, 3) { *rng.pick(CONFUSABLES) } else { *rng.pick(&['x', 'H', '?', 'é', '♞', '\t', '.', '9', '0']) };
             }
             fields[0] = b.into_iter().collect();
         }
@@ -194,13 +194,21 @@ pub fn random_unicode(rng: &mut Rng, len: usize) -> String {
     s
 }
 
+/// Characters that Unicode-aware predicates (is_numeric, is_alphabetic, is_whitespace,
+/// to_lowercase ...) treat like their ASCII look-alikes while ASCII-only conversions do not.
+const CONFUSABLES: &[char] = &[
+    '\u{FF18}', '\u{FF11}', '\u{0668}', '\u{0663}', '\u{06F8}', '\u{0968}', '\u{00B2}', '\u{00B9}', '\u{2078}', '\u{2167}', '\u{00BD}', '\u{0BE9}', '\u{1D7D6}',
+    '\u{FF4B}', '\u{FF2B}', '\u{041A}', '\u{043A}', '\u{212A}', '\u{0131}', '\u{FF50}', '\u{0420}', '\u{FF17}',
+    '\u{00A0}', '\u{2003}', '\u{3000}', '\u{200B}', '\u{FEFF}', '\u{2212}', '\u{2013}', '\u{FF0D}', '\u{FF0F}', '\u{2215}',
+];
+
 const EP_ALPHABET: &[&str] = &[
     "a", "b", "c", "d", "e", "f", "g", "h", "i", "x", "A", "H", "0", "1", "2", "3", "4", "5", "6", "7", "8", "9", "-", " ", "é", "ß", "♞", "\u{1F600}", "\u{0301}", "٣", "３", "\t", ".", "+", "z", "K", "q", "/", "w", "ｅ",
 ];
 
 pub fn run(tier: Tier, seed: u64) -> i32 {
     let mut run = Run::new("C15", tier, seed, "exploration");
-    run.rule = "evaluation = one string passed to the real from_fen under catch_unwind (or one CLI invocation of the real binary). Families: canonical FENs of legal positions with halfmove 0..150 and fullmove 1..70000 (faithfulness: Ok and every field equal to the oracle's strict parse); field-wise mutations; strings over the FEN alphabet; arbitrary Unicode; truncations and 10^5-character inputs; the ep field exhaustively over all 1-3 symbol strings of a 40-symbol alphabet (ASCII + multi-byte); CLI: `walleye --fen=<s> -T -d 1` must exit 0 without 'panicked' and print a line. Non-trivial = every string (distinct by content); features name the family".into();
+    run.rule = "evaluation = one string passed to the real from_fen under catch_unwind (or one CLI invocation of the real binary). Families: canonical FENs of legal positions with halfmove 0..150 and fullmove 1..70000 (faithfulness: Ok and every field equal to the oracle's strict parse); field-wise mutations; strings over the FEN alphabet; arbitrary Unicode; truncations and 10^5-character inputs; the ep field exhaustively over all 1-3 symbol strings of a 40-symbol alphabet (ASCII + multi-byte); every character position of two valid FENs replaced by / preceded by each of 32 confusable Unicode characters (digits of other scripts, full-width and Cyrillic letters, exotic blanks and dashes); CLI: `walleye --fen=<s> -T -d 1` must exit 0 without 'panicked' and print a line. Non-trivial = every string (distinct by content); features name the family".into();
     run.assumptions = vec![
         "well-formed FEN = exactly six single-space separated fields, standard letters, each right at most once, counters plain decimal (halfmove >= 0, fullmove >= 1, at most 9 digits) and the position satisfies C01's legality predicate".into(),
         "strings containing NUL or empty strings are not passed through argv".into(),
@@ -216,7 +224,7 @@ pub fn run(tier: Tier, seed: u64) -> i32 {
     let n_jobs = tier.pick(256usize, 3200);
     let ep_total = EP_ALPHABET.len() + EP_ALPHABET.len().pow(2) + EP_ALPHABET.len().pow(3);
     let ep_jobs = 32usize;
-    let results = par::par_map(n_jobs + ep_jobs, |j| {
+    let results = par::par_map(n_jobs + 1 + ep_jobs, |j| {
         let mut acc = Acc::new();
         let mut rng = Rng::stream(seed, j as u64);
         let mut cli_candidates: Vec<String> = Vec::new();
@@ -289,9 +297,29 @@ pub fn run(tier: Tier, seed: u64) -> i32 {
                     observe(&s3, &mut acc, "over_long");
                 }
             }
+        } else if j == n_jobs {
+            // every character position of two valid six-field FENs, replaced by (and preceded by)
+            // every confusable character
+            for base in ["rnbqkbnr/pppppppp/8/8/8/8/PPPPPPPP/RNBQKBNR w KQkq - 0 1", "r3k2r/p1ppqpb1/bn2pnp1/3PN3/1p2P3/2N2Q1p/PPPBBPPP/R3K2R b KQkq e3 12 34"] {
+                let chars: Vec<char> = base.chars().collect();
+                for i in 0..chars.len() {
+                    for &c in CONFUSABLES {
+                        let mut a = chars.clone();
+                        a[i] = c;
+                        let sa: String = a.into_iter().collect();
+                        if observe(&sa, &mut acc, "confusable_character") != Some(true) && i % 17 == 0 && c == CONFUSABLES[0] {
+                            cli_candidates.push(sa);
+                        }
+                        let mut b = chars.clone();
+                        b.insert(i, c);
+                        let sb: String = b.into_iter().collect();
+                        observe(&sb, &mut acc, "confusable_character");
+                    }
+                }
+            }
         } else {
             // exhaustive ep-field family, sharded
-            let shard = j - n_jobs;
+            let shard = j - n_jobs - 1;
             let n = EP_ALPHABET.len();
             for idx in (shard..ep_total).step_by(ep_jobs) {
                 let ep: String = if idx < n {
